@@ -145,8 +145,16 @@ fn worker_main(args: &[String]) -> i32 {
     let want_digest = std::env::var("VERIF_DIGEST").is_ok();
     let mut digests: Vec<J> = Vec::new();
 
+    // progress marker: if the SUT takes the whole process down (abort on allocation failure, stack overflow,
+    // process::exit), the orchestrator can still name the case that did it
+    let cur_path = format!("{}.cur", outfile);
+    let cur_file = std::fs::OpenOptions::new().create(true).write(true).truncate(true).open(&cur_path).ok();
     let mut index = widx;
     while index < runs {
+        if let Some(f) = &cur_file {
+            use std::os::unix::fs::FileExt;
+            let _ = f.write_at(format!("{:<20}", index).as_bytes(), 0);
+        }
         let mut rng = rng::Rng::new(rng::mix(seed, prop.id(), index));
         let case = prop.generate(&mut rng, thorough);
         let outcome = prop.check(&case, false);
@@ -391,6 +399,7 @@ fn run_main(args: &[String]) -> i32 {
     let mut samples: Vec<J> = Vec::new();
     let mut digests: Vec<String> = Vec::new();
     let mut all_digests: Vec<J> = Vec::new();
+    let mut dead_workers: Vec<J> = Vec::new();
     for (mut child, outfile) in children {
         let status = child.wait();
         let ok = status.map(|s| s.success()).unwrap_or(false);
@@ -398,8 +407,20 @@ fn run_main(args: &[String]) -> i32 {
         let data = match (ok, data) {
             (true, Some(d)) => d,
             _ => {
-                eprintln!("HARNESS ERROR: worker failed ({:?})", outfile);
-                return 2;
+                // the worker process died: which case was it checking?
+                let cur = std::fs::read_to_string(format!("{}.cur", outfile.display())).ok().and_then(|t| t.trim().parse::<u64>().ok());
+                match cur {
+                    Some(index) => {
+                        let mut rng = rng::Rng::new(rng::mix(seed, prop.id(), index));
+                        let case = prop.generate(&mut rng, thorough);
+                        dead_workers.push(json!({"index": index, "class": format!("{}.process_abort", id.to_lowercase()), "detail": format!("the process running the system under simulation died while checking case #{} (abort / allocation failure / exit inside the library)", index), "features": json!({"abort": true}), "case": case}));
+                        continue;
+                    }
+                    None => {
+                        eprintln!("HARNESS ERROR: worker failed before its first case ({:?})", outfile);
+                        return 2;
+                    }
+                }
             }
         };
         cases += data["cases"].as_u64().unwrap_or(0);
@@ -461,6 +482,17 @@ fn run_main(args: &[String]) -> i32 {
     let replay_dir = dir.join("replays");
     let mut violation_summaries = Vec::new();
     let minimise_until = Instant::now() + std::time::Duration::from_secs(180);
+    for v in &dead_workers {
+        let class = util::jstr(v, "class");
+        let _ = std::fs::create_dir_all(&replay_dir);
+        let path = replay_dir.join(format!("{}-{}-seed{}-i{}.json", id, class.replace('.', "_"), seed, v["index"].as_u64().unwrap_or(0)));
+        let replay = json!({"property": id, "seed": seed, "index": v["index"], "class": class, "detail": v["detail"], "features": v["features"], "case": v["case"], "note": "not minimised: the case kills the process that checks it; the replay command runs it in a child process"});
+        let _ = std::fs::write(&path, serde_json::to_vec_pretty(&replay).unwrap());
+        println!("VIOLATION property={} replay={}", id, path.display());
+        println!("  class={} : {}", class, util::jstr(v, "detail"));
+        reported += 1;
+        violation_summaries.push(json!({"class": class, "cases": 1, "known": false, "replay": path.display().to_string()}));
+    }
     for v in &violations {
         let class = util::jstr(v, "class");
         let features = v["features"].clone();
@@ -587,6 +619,22 @@ fn run_main(args: &[String]) -> i32 {
 fn replay_main(args: &[String]) -> i32 {
     let id = &args[0];
     let path = &args[1];
+    if std::env::var("VERIF_REPLAY_CHILD").is_err() {
+        // run the case in a child process: a case that takes its process down is still reported
+        let status = Command::new(std::env::current_exe().unwrap()).arg("replay").arg(id).arg(path).env("VERIF_REPLAY_CHILD", "1").env("TZ", "UTC").status();
+        return match status {
+            Ok(s) if s.code().is_some() => s.code().unwrap(),
+            Ok(s) => {
+                println!("VIOLATION property={} replay={}", id, path);
+                println!("  class={}.process_abort : the process running the system under simulation died ({:?})", id.to_lowercase(), s);
+                1
+            }
+            Err(err) => {
+                eprintln!("HARNESS ERROR: cannot spawn the replay child: {}", err);
+                2
+            }
+        };
+    }
     let prop = find_prop(id);
     world::install_panic_hook();
     world::warm_up();
